@@ -35,6 +35,7 @@ type fixture struct {
 	c1   transaction.Transaction // contract (data) A -> B
 	s1   transaction.Transaction // pure spice transfer A -> B 1
 	c1x  transaction.Transaction // contract claiming issuer A, signed by X (invalid issuer signature)
+	m1   transaction.Transaction // paid contract A -> B: data AND spice 1 (must behave like a contract, not like a transfer)
 
 	labels map[[32]byte]string
 	byName map[string]transaction.Transaction
@@ -45,6 +46,7 @@ func newFixture() *fixture {
 	fx.fund = world.MakeTx(fx.R, fx.A.Addr, "c16-fund", nil, spice.Melange{Currency: 5}, 1601)
 	fx.c1 = world.MakeTx(fx.A, fx.B.Addr, "c16-contract", []byte("contract: A sells B a bridge"), spice.Melange{}, 1602)
 	fx.s1 = world.MakeTx(fx.A, fx.B.Addr, "c16-spice", nil, spice.Melange{Currency: 1}, 1603)
+	fx.m1 = world.MakeTx(fx.A, fx.B.Addr, "c16-paid-contract", []byte("paid"), spice.Melange{Currency: 1}, 1605)
 	// forged contract: claims issuer A, but digest and signature are produced with X's key
 	forged := transaction.Transaction{
 		CreatedAt:         world.BaseTime.Add(1604 * time.Millisecond),
@@ -56,8 +58,8 @@ func newFixture() *fixture {
 	}
 	forged.Hash, forged.IssuerSignature = fx.X.Sign(forged.GetMessage())
 	fx.c1x = forged
-	fx.labels = map[[32]byte]string{fx.fund.Hash: "fund", fx.c1.Hash: "c1", fx.s1.Hash: "s1", fx.c1x.Hash: "c1x"}
-	fx.byName = map[string]transaction.Transaction{"fund": fx.fund, "c1": fx.c1, "s1": fx.s1, "c1x": fx.c1x}
+	fx.labels = map[[32]byte]string{fx.fund.Hash: "fund", fx.c1.Hash: "c1", fx.s1.Hash: "s1", fx.c1x.Hash: "c1x", fx.m1.Hash: "m1"}
+	fx.byName = map[string]transaction.Transaction{"fund": fx.fund, "c1": fx.c1, "s1": fx.s1, "c1x": fx.c1x, "m1": fx.m1}
 	return fx
 }
 
@@ -181,8 +183,8 @@ func (fx *fixture) buildWrite(ev string) *request {
 	switch p[0] {
 	case "Propose":
 		return &request{rpc: "Propose", trx: fx.protoTx(fx.byName[p[1]])}
-	case "Confirm":
-		t := fx.c1
+	case "Confirm": // Confirm:<who countersigns>[:<contract>]
+		t := fx.contractOf(p, 2)
 		switch p[1] {
 		case "B": // honest receiver countersigns
 			t = world.CounterSign(t, fx.B)
@@ -191,8 +193,9 @@ func (fx *fixture) buildWrite(ev string) *request {
 		case "none": // issuer-signed content only
 		}
 		return &request{rpc: "Confirm", trx: fx.protoTx(t)}
-	case "Reject":
-		h := fx.c1.Hash[:]
+	case "Reject": // Reject:<who signs>[:<contract>]
+		ct := fx.contractOf(p, 2)
+		h := ct.Hash[:]
 		switch p[1] {
 		case "B": // the receiver signs the hash
 			return &request{rpc: "Reject", sh: signedHash(fx.B, fx.B.Addr, h)}
@@ -205,6 +208,21 @@ func (fx *fixture) buildWrite(ev string) *request {
 		}
 	}
 	panic("c16: not a write event: " + ev)
+}
+
+// contractOf returns the contract named by the optional field i of an event (default c1).
+func (fx *fixture) contractOf(p []string, i int) transaction.Transaction {
+	if len(p) > i {
+		return fx.byName[p[i]]
+	}
+	return fx.c1
+}
+
+func contractLabel(p []string, i int) string {
+	if len(p) > i {
+		return p[i]
+	}
+	return "c1"
 }
 
 // send performs one RPC on the real handler (under recover). The caller lets the goroutines the handler
@@ -277,6 +295,11 @@ type snapshot struct {
 	lists    map[string][]string // "A"/"B"/"X" -> labels listed as awaiting for that address (entries with a live transaction)
 	balances []string            // addresses with a cached balance
 	flash    []string            // addresses recorded by the flashback memory (throttle set)
+	// addresses whose raw list value contains a separator (more than one entry was ever listed at once). Hidden
+	// cache state that decides a later answer: the cache's remove() then never yields an empty value again, so
+	// once nothing is awaiting an authorised Waiting answers "ok, empty list" instead of "processing". The flag
+	// is absorbing (add() and remove() keep a separator), so it is a finite abstraction of the raw value.
+	residue []string
 }
 
 func (fx *fixture) snap() snapshot {
@@ -307,6 +330,9 @@ func (fx *fixture) snap() snapshot {
 		case strings.HasPrefix(k, "trx-"):
 		case strings.HasPrefix(k, "address-"):
 			name := world.AddrName(k[len("address-"):])
+			if strings.Contains(v, ",") {
+				s.residue = append(s.residue, name)
+			}
 			for _, hx := range strings.Split(v, ",") {
 				if hx == "" || !live[hx] {
 					continue
@@ -325,6 +351,7 @@ func (fx *fixture) snap() snapshot {
 	sort.Strings(s.trxs)
 	sort.Strings(s.balances)
 	sort.Strings(s.flash)
+	sort.Strings(s.residue)
 	return s
 }
 
